@@ -28,10 +28,14 @@ for f in sorted(glob.glob('/verif/seeded/*/meta.json')):
 text = '''## 6. Demonstrating detection
 
 **Reverts of the repairs.** Every `fix:` commit of section 4.1 was first seen as a
-VIOLATION; reverting the LIKE-escaping fix (C07, C01), the boolean-call
-parenthesisation fix (C09), the SQLAlchemy `TRUE` fix (C03), the Django `all()`
-fix and the outer-join fix (C04) in a scratch worktree (`tools/mutant.sh
-revert:<commit> <checks>`) makes the listed check fail again.
+VIOLATION. `tools/revert_wave.py` reverts each of the 66 recorded repairs in a scratch
+worktree of the current HEAD and runs the quick check of the property it is recorded
+under (`seeded/reverts.json`): 47 reverts apply (19 conflict with later repairs of the
+same lines), all 47 are reported again - 44 at once, 3 after an extension *in kind*
+(C12 had replaced the empty duration `duration'P'` by a unique token before translating
+it; C02 had no term with `not`/`and`/`or` under a null test; C12 only compiled
+SQLAlchemy statements, so a Python list among the bound parameters went unnoticed
+until the driver saw it - scalar-root statements are now executed).
 
 **Independently seeded changes.** Fresh sub-agents were given only the text of one
 property and a scratch git worktree of `/repo` (nothing from `/verif`) and asked for a
